@@ -68,6 +68,7 @@ package flood
 // of a command that can still verify is never dropped while a signing key is set ----
 
 //@ guarded Flooder.sleepCmdMu: sleepCmdSeenCache
+//@ mapwritesonly[C29] Flooder.sleepCmdSeenCache: (*Flooder).markSleepCmdSeen, (*Flooder).cleanupSleepCmdCache
 
 //@ func (*Flooder).markSleepCmdSeen
 //@ prop C29
